@@ -117,6 +117,28 @@ func encRecord(b []byte, t *Template, r *Record, ipfix bool) []byte {
 	return b
 }
 
+// MinRecLen is the smallest number of octets a record of t can occupy on the wire.
+func MinRecLen(t *Template, ipfix bool) int {
+	n := 0
+	for _, f := range t.AllFields() {
+		if f.Len == 65535 && ipfix {
+			n++
+		} else {
+			n += int(f.Len)
+		}
+	}
+	return n
+}
+
+// EncodeRecords renders records of t as they appear inside a data set.
+func EncodeRecords(t *Template, recs []Record, ipfix bool) []byte {
+	var b []byte
+	for i := range recs {
+		b = encRecord(b, t, &recs[i], ipfix)
+	}
+	return b
+}
+
 // SetOffsets records where each set starts in the encoded message.
 type SetOffsets struct {
 	Start []int // offset of each set header
@@ -272,6 +294,7 @@ type ExpMsg struct {
 	// diagnostics
 	UnknownSets int `json:"unknown_sets,omitempty"` // data sets whose template was not known
 	ShortTail   int `json:"short_tail,omitempty"`   // sets ending with a record of <= 4 octets
+	EmptyTplSets int `json:"empty_tpl_sets,omitempty"` // data sets whose latest template definition describes empty records
 	Mismatched  int `json:"mismatched,omitempty"`   // records generated for another definition of the template id
 }
 
@@ -388,10 +411,26 @@ func Expect(m *Msg, addr []byte, cache TplCache, im InfoModel, encodedLen int) *
 				t := s.Tpls[i]
 				cache[CacheKey(addr, t.ID)] = &t
 			}
+		case SetRaw:
+			// a raw set whose id is a template id is a data set on the wire: under
+			// a template that describes empty records it yields nothing (like a
+			// reserved id or an unknown template); under any other known template
+			// its octets would be decoded as records the model has no values for
+			if s.RawID > 255 {
+				if t, ok := cache[CacheKey(addr, s.RawID)]; ok && t != nil && MinRecLen(t, m.Proto == "ipfix") > 0 {
+					e.Mismatched++
+				}
+			}
 		case SetData:
 			t, ok := cache[CacheKey(addr, s.TplID)]
 			if !ok {
 				e.UnknownSets++
+				continue
+			}
+			if MinRecLen(t, m.Proto == "ipfix") == 0 {
+				// the latest definition describes empty records: the set is
+				// skipped whatever it carries
+				e.EmptyTplSets++
 				continue
 			}
 			specs := t.AllFields()
